@@ -30,6 +30,7 @@ GEN = ['Extent', 'Window']
 OPS = ['C02', 'C04']
 RULE = ('cases: (shift) lists of 1..4 angular / first-order dispersive / higher-order dispersive elements, all orderings, per-axis du, os 1..4; '
         '(fit) planes 2..7 x 2..7 with 1..3 segments, per-axis pixelscale, OPD = ramp + random, second fit after an OPD update; '
+        '(reuse) one wavefront already carrying tilt (Wavefront(tilt) / fit_tilt / earlier Tilt plane) re-used for 2..4 Tilt planes, each propagated; '
         '(equiv) pupils with tilt 0.01 px .. beyond the output expressed as OPD ramp / Tilt plane / Wavefront(tilt) / fit_tilt / '
         'several elements in different orders, segmented apertures with per-segment tilts, non-square output pixels, os 1..3. '
         'distinct = (kind, shapes, element kinds, order, sampling class); non-trivial = everything but a single zero tilt')
@@ -134,12 +135,34 @@ def _gen_equiv(rng):
             'labels': [int(x) for x in lab.ravel()], 'nseg': nseg, 'amp': [float(x) for x in amp.ravel()], 'base': [float(x) for x in base.ravel()],
             'tilt_px': tilts, 'split': split, 'prop_shape': None if rng.integers(0, 3) else [int(rng.integers(1, S[0] + 1)), int(rng.integers(1, S[1] + 1))]}
 
+def _gen_reuse(rng):
+    """one wavefront that already carries tilt (Wavefront(tilt=...), a fit_tilt'ed plane, or an earlier Tilt plane) is
+    re-used for k >= 2 different Tilt planes (a scan over tilt angles), each product propagated"""
+    c = _gen_equiv(rng)
+    while c['nseg'] != 1: c = _gen_equiv(rng)
+    c['kind'] = 'reuse'
+    c['base_kind'] = ['wave', 'fit', 'plane'][int(rng.integers(0, 3))]
+    S = max(c['out_shape']) * c['os']
+    scan = []
+    for _ in range(int(rng.integers(2, 5))):
+        s = float(rng.choice([0.4, 1.7, 3.0, S * 0.4]))
+        scan.append([float(rng.uniform(-s, s)), float(rng.uniform(-s, s))])
+    base = c['tilt_px'][0]
+    if abs(base[0]) + abs(base[1]) > S: base = [base[0] / 8, base[1] / 8]
+    # keep every total shift's fractional part away from 0 (np.fix insensitive to rounding)
+    for t in scan:
+        for a in (0, 1):
+            fr = abs(base[a] + t[a]) % 1.0
+            if fr < 0.05 or fr > 0.95: t[a] += 0.23
+    c['tilt_px'] = [base]; c['scan'] = scan; c['prop_shape'] = None
+    return c
+
 def generate(rng, tier):
-    n = {'quick': 150, 'thorough': 3000, 'search': 300}[tier]
+    n = {'quick': 160, 'thorough': 3000, 'search': 300}[tier]
     out = []
     for k in range(n):
-        t = k % 3
-        out.append(_gen_shift(rng) if t == 0 else _gen_fit(rng) if t == 1 else _gen_equiv(rng))
+        t = k % 4
+        out.append(_gen_shift(rng) if t == 0 else _gen_fit(rng) if t == 1 else _gen_equiv(rng) if t == 2 else _gen_reuse(rng))
     return out
 
 # ------------------------------------------------------------------------------------------ implementation
@@ -251,11 +274,43 @@ def _impl_equiv(c):
         reps['half'] = _prop(c, lentil.Wavefront(WL) * mk(half) * lentil.Tilt(x=0.5 * thx, y=0.5 * thy), c['prop_shape'])
     return {'reps': reps, 'insum': float(np.sum(np.abs(amp * (lab > 0))))}
 
+def _impl_reuse(c):
+    import lentil
+    m, n = c['shape']
+    lab = np.array(c['labels']).reshape(m, n)
+    amp = np.array(c['amp']).reshape(m, n); base = np.array(c['base']).reshape(m, n)
+    mask = (lab > 0).astype(int)
+    dx = c['dx'][0] if c['scalar_dx'] else tuple(c['dx'])
+    mk = lambda opd: lentil.Pupil(amplitude=amp, opd=opd, mask=mask, pixelscale=dx, focal_length=Z)
+    r = np.arange(m)[:, None] - m // 2; cc = np.arange(n)[None, :] - n // 2
+    ramp = lambda px: (lambda th: th[0] * r * c['dx'][0] - th[1] * cc * c['dx'][1])(_angles(c, px)) * (lab > 0)
+    bx, by = _angles(c, c['tilt_px'][0])
+    # the upstream wavefront, built ONCE
+    if c['base_kind'] == 'wave': w0 = lentil.Wavefront(WL, tilt=[bx, by]) * mk(base)
+    elif c['base_kind'] == 'plane': w0 = lentil.Wavefront(WL) * mk(base) * lentil.Tilt(x=bx, y=by)
+    else: w0 = lentil.Wavefront(WL) * mk(base + ramp(c['tilt_px'][0])).fit_tilt()
+    n0 = [len(f.tilt) for f in w0.data]
+    sh0 = _prop(c, w0, None)['shifts']
+    # the tilt the upstream wavefront carries, in output samples (fit_tilt also picks up the tilt content of `base`)
+    steps = []
+    for px in c['scan']:
+        thx, thy = _angles(c, px)
+        w = w0 * lentil.Tilt(x=thx, y=thy)
+        got = _prop(c, w, None)
+        got['ntilt'] = [len(f.tilt) for f in w.data]
+        tot = [c['tilt_px'][0][0] + px[0], c['tilt_px'][0][1] + px[1]]
+        ref = _prop(c, lentil.Wavefront(WL) * mk(base + ramp(tot)), None)
+        steps.append({'got': got, 'ref': ref})
+    after = _prop(c, w0, None)
+    return {'n0': n0, 'n0_after': [len(f.tilt) for f in w0.data], 'shift0': sh0, 'shift0_after': after['shifts'], 'steps': steps,
+            'insum': float(np.sum(np.abs(amp * (lab > 0))))}
+
 def impl(c):
     vlib.import_lentil()
     try:
         if c['kind'] == 'shift': return _impl_shift(c)
         if c['kind'] == 'fit': return _impl_fit(c)
+        if c['kind'] == 'reuse': return _impl_reuse(c)
         return _impl_equiv(c)
     except NotImplementedError as e:
         return {'exc': 'NotImplementedError', 'msg': str(e)[:200]}
@@ -277,6 +332,15 @@ def requests(c, io):
             k = c['nseg']
             rq.append({'op': 'c04.fit', 'shape': c['shape'], 'px': vlib.fl(c['px']), 'opd': vlib.fl(io['opd1u']),
                        'segs': [{'mask': vlib.fl(mk), 't': vlib.fl(t)} for mk, t in zip(io['mask'], io['tilt2'][k:])]})
+        return rq
+    if c['kind'] == 'reuse':
+        if c['base_kind'] == 'fit' or not io['shift0']: return []
+        bx, by = _angles(c, c['tilt_px'][0])
+        rq = []
+        for px in c['scan']:
+            thx, thy = _angles(c, px)
+            els = [{'k': 'a', 'x': bx, 'y': by}, {'k': 'a', 'x': thx, 'y': thy}]
+            rq.append({'op': 'c04.shift', 'tilts': [_tj(e) for e in els], 'z': vlib.fbits(Z), 'wl': vlib.fbits(WL), 'du': vlib.fl(c['du']), 'os': c['os']})
         return rq
     # equiv: the shift handed to propagate_dft for the multi-element representation
     if c['nseg'] == 1:
@@ -306,6 +370,14 @@ def compare(c, io, mo):
             if len(io['tilt2']) != 2 * c['nseg']: return f"{len(io['tilt2'])} tilts recorded after the second fit, expected {2 * c['nseg']}"
             if io['tilt2'][:c['nseg']] != io['tilt1']: return 'first recorded tilts changed by the second fit'
             if not _close(io['opd2'], vlib.unfl(mo[1]['opd']), sc, 1e-10): return 'opd after the second fit_tilt differs from the model'
+        return None
+    if c['kind'] == 'reuse':
+        for k, (m, st) in enumerate(zip(mo, io['steps'])):
+            if not st['got']['shifts']: return f'scan step {k}: the product lost its field'
+            want = vlib.unfl(m['ij'])
+            if not _close(st['got']['shifts'][0], want, max(1e-3, abs(want[0]), abs(want[1]))):
+                return f"scan step {k}: shift of (upstream tilt, own Tilt plane): impl {st['got']['shifts'][0]} model {want}"
+            if st['got']['ntilt'][0] != 2: return f"scan step {k}: product carries {st['got']['ntilt'][0]} tilt elements, model 2"
         return None
     if mo and io['reps']['multi12']['shifts']:
         sh = io['reps']['multi12']['shifts'][0]
@@ -450,8 +522,40 @@ def _oracle_equiv(c, io):
             pass   # the fitted tilt includes the base OPD's own tilt; equality of fields is checked above
     return None
 
+def _oracle_reuse(c, io):
+    tol = 1e-9 * (1 + io['insum'])
+    S = [c['out_shape'][0] * c['os'], c['out_shape'][1] * c['os']]
+    def fld(r): return (np.array(r['field']['re']) + 1j * np.array(r['field']['im'])).reshape(r['field']['shape'])
+    def window(r):
+        w = np.ones(S, bool)
+        if len(r['extents']) != r['nin']: return np.zeros(S, bool)
+        rows = np.arange(S[0]) - S[0] // 2; cols = np.arange(S[1]) - S[1] // 2
+        for e in r['extents']:
+            w &= np.outer((rows >= e[0]) & (rows <= e[1]), (cols >= e[2]) & (cols <= e[3]))
+        return w
+    if io['n0_after'] != io['n0']:
+        return f"multiplying by Tilt planes changed the upstream wavefront: its fields carried {io['n0']} tilt elements, now {io['n0_after']}"
+    if io['shift0'] and not _close(io['shift0_after'][0], io['shift0'][0], max(1e-3, abs(io['shift0'][0][0]), abs(io['shift0'][0][1])), 1e-9):
+        return f"the re-used upstream wavefront's shift changed from {io['shift0'][0]} to {io['shift0_after'][0]}"
+    for k, st in enumerate(io['steps']):
+        got, ref = st['got'], st['ref']
+        if got['shifts'] and io['shift0']:
+            want = [io['shift0'][0][0] + c['scan'][k][0], io['shift0'][0][1] + c['scan'][k][1]]
+            if not _close(got['shifts'][0], want, max(1e-3, abs(want[0]), abs(want[1])), 1e-9):
+                return (f"scan step {k}: Tilt plane {c['scan'][k]} px on the re-used wavefront (own shift {io['shift0'][0]}) is displaced by "
+                        f"{got['shifts'][0]}, expected the sum of exactly these two {want}")
+        w = window(got) & window(ref)
+        if w.any():
+            d = np.abs(fld(got) - fld(ref))
+            if d[w].max() > tol:
+                i = np.argwhere((d > tol) & w)[0]
+                return (f"scan step {k}: re-used tilted wavefront x Tilt plane differs from the OPD-ramp representation of its own tilts at "
+                        f"sample ({i[0]},{i[1]}): {fld(got)[i[0], i[1]]:.6g} vs {fld(ref)[i[0], i[1]]:.6g} (max error {d[w].max():.3e})")
+    return None
+
 def oracle(c, io):
     if 'exc' in io: return f"raised {io['exc']}: {io.get('msg')}"
+    if c['kind'] == 'reuse': return _oracle_reuse(c, io)
     if c['kind'] == 'shift': return _oracle_shift(c, io)
     if c['kind'] == 'fit': return _oracle_fit(c, io)
     return _oracle_equiv(c, io)
@@ -459,18 +563,22 @@ def oracle(c, io):
 # ------------------------------------------------------------------------------------------ coverage
 def signature(c):
     if c['kind'] == 'shift': return f"shift {[e['k'] for e in c['tilts']]} perm={c['perm']} os={c['os']} du={c['du'][0]:.4g},{c['du'][1]:.4g}"
+    if c['kind'] == 'reuse': return f"reuse {c['base_kind']} {c['shape']} S={c['out_shape']} os={c['os']} base={[round(v, 2) for v in c['tilt_px'][0]]} scan={[[round(v, 2) for v in t] for t in c['scan']]}"
     if c['kind'] == 'fit': return f"fit {c['shape']} nseg={c['nseg']} px={c['px']} upd={c['update'] is not None} lab={c['labels'][:12]} opd0={c['opd'][0]:.4g}"
     return f"equiv {c['shape']} nseg={c['nseg']} S={c['out_shape']} os={c['os']} tilt={[[round(v, 2) for v in t] for t in c['tilt_px']]} ps={c['prop_shape']}"
 
 def nontrivial(c):
     if c['kind'] == 'shift': return len(c['tilts']) > 1 or c['du'][0] != c['du'][1]
-    if c['kind'] == 'fit': return True
+    if c['kind'] in ('fit', 'reuse'): return True
     return any(v != 0 for t in c['tilt_px'] for v in t)
 
 def tags(c):
     t = [c['kind']]
     if c['kind'] == 'shift':
         t += sorted({'el:' + e['k'] for e in c['tilts']}); t.append(f"n={len(c['tilts'])}")
+        if c['du'][0] != c['du'][1]: t.append('du:non-square')
+    elif c['kind'] == 'reuse':
+        t.append('reuse:' + c['base_kind']); t.append(f"scan={len(c['scan'])}")
         if c['du'][0] != c['du'][1]: t.append('du:non-square')
     elif c['kind'] == 'fit':
         t.append(f"nseg={c['nseg']}")
@@ -490,5 +598,7 @@ def shrink(c):
             d = P.json_copy(c); d['tilts'].pop(i); d['perm'] = list(range(len(d['tilts']))); yield d
     if c['kind'] == 'fit' and c['update'] is not None:
         d = P.json_copy(c); d['update'] = None; yield d
+    if c['kind'] == 'reuse' and len(c['scan']) > 2:
+        d = P.json_copy(c); d['scan'] = d['scan'][:-1]; yield d
     if c['kind'] == 'equiv' and c['prop_shape'] is not None:
         d = P.json_copy(c); d['prop_shape'] = None; yield d
